@@ -109,6 +109,38 @@ def abutting_scene(rnd):
     return nodes, edges, drag, steps, dx, dy
 
 
+def wrapped_scene(rnd):
+    """an edge that starts bent: S -> A.TL -> A.TR -> B.BL -> B.BR -> T, over node A and under node B (B to the right of A, its bottom a little
+    below A's top).  B is raised exactly onto the line of A's top (four bends on one line), then A is dragged along that line under B --
+    or B over A.  (The statement quantifies over initial routings tight round node corners; every other family starts straight.)"""
+    k = rnd.choice([1, 2])
+    aw, ah, bw, bh = (rnd.choice([20, 30, 40]) * k for _ in range(4))
+    ax, ay = 100 * k, 60 * k
+    gx = rnd.choice([30, 60, 90]) * k
+    d = rnd.choice([4, 10, 16]) * k
+    bx, by = ax + aw + gx, ay + ah - d
+    s = [ax - 50 * k - 4, ay - 40 * k - 4, 8, 8]
+    t = [bx + bw + 60 * k - 4, by + bh + 50 * k - 4, 8, 8]
+    nodes = [s, t, [ax, ay, aw, ah], [bx, by, bw, bh]]
+    edges = [(0, 1)]
+    bends = [(0, 2, 3), (0, 2, 0), (0, 3, 2), (0, 3, 1)]
+    raise_by = d if rnd.random() < 0.8 else d + rnd.choice([-2, 2]) * k          # mostly exactly onto the line
+    if rnd.random() < 0.6:
+        second = (2, rnd.randint(4, 12), rnd.choice([6, 10, 15]) * k)            # A slides to the right, under B
+    else:
+        second = (3, rnd.randint(4, 12), -rnd.choice([6, 10, 15]) * k)           # B slides to the left, over A
+    return (nodes, edges, 3, 1, 0, raise_by, -1, 0, 0, 0) + second + (bends,)
+
+
+def scene_row(sc):
+    """the line h_topo reads for a scene (the one place that knows the format)"""
+    nodes, edges, drag, steps, dx, dy, rz, rw, rh, reuse, drag2, steps2, d2 = sc[:13]
+    bends = sc[13] if len(sc) > 13 else []
+    row = [len(nodes)] + [v for nd in nodes for v in nd] + [len(edges)] + [v for e in edges for v in e] + [drag, steps, dx, dy, rz, rw, rh, reuse, drag2, steps2, d2]
+    row += [len(bends)] + [v for b in bends for v in b]
+    return ' '.join(map(str, row))
+
+
 def squeezed_between_abutting_nodes(states):
     """naming only (known-finding fingerprint): in the last recorded state some path runs from a corner of one node to a corner of
     another node along a line that carries a side of both, the two nodes lying on opposite sides of it (zero-width gap)"""
@@ -144,11 +176,11 @@ def main(tier):
         if sc:
             scenes.append(sc)
     scenes = [with_resize(sc, rnd) for sc in scenes]
+    scenes += [wrapped_scene(rnd) for _ in range(300 if quick else 2000)]
     sf = os.path.join(d, 'scenes.txt')
     with open(sf, 'w') as f:
-        for nodes, edges, drag, steps, dx, dy, rz, rw, rh, reuse, drag2, steps2, d2 in scenes:
-            row = [len(nodes)] + [v for nd in nodes for v in nd] + [len(edges)] + [v for e in edges for v in e] + [drag, steps, dx, dy, rz, rw, rh, reuse, drag2, steps2, d2]
-            f.write(' '.join(map(str, row)) + '\n')
+        for sc in scenes:
+            f.write(scene_row(sc) + '\n')
     of = os.path.join(d, 'topo.json')
     rc, out = V.run(['timeout', '1500', ht, 'run', sf, of], timeout=1600)
     if rc != 0:
@@ -168,10 +200,13 @@ def main(tier):
                 key = ('assertion:' + re.sub(r'[^A-Za-z0-9_>!=<.()-]+', '', m.group(1))[:50] + ('@' + ml.group(2) if ml else '')) if m else 'exception:' + what[:40]
                 if m and squeezed_between_abutting_nodes(x['states']):
                     fn = re.search(r'in: [^\n]*?(\w+)\(', what)
-                    key = 'topology:edge-in-the-zero-width-gap-between-abutting-nodes:assertion-in-' + (fn.group(1) if fn else 'unknown')
-            nodes, edges, drag, steps, dx, dy, rz, rw, rh, reuse, drag2, steps2, d2 = scenes[i - 1]
+                    said = re.search(r'\| said: ([A-Za-z0-9 ]+)', what)         # the library's own explanation, without the case number
+                    why = re.sub(r'[^a-z0-9]+', '-', re.sub(r': C\d+', '', said.group(1)).strip().lower()) if said else ''
+                    key = 'topology:edge-in-the-zero-width-gap-between-abutting-nodes:assertion-in-' + (fn.group(1) if fn else 'unknown') + (':' + why if why else '')
+            nodes, edges, drag, steps, dx, dy, rz, rw, rh, reuse, drag2, steps2, d2 = scenes[i - 1][:13]
+            bends = scenes[i - 1][13] if len(scenes[i - 1]) > 13 else []
             vd.violation(key, '%s %s nodes(x,y,w,h)=%s edges=%s drag=%d by (%d,%d) x%d resize=%s' % (t, what[:150].replace('\n', ' '), nodes, edges, drag, dx, dy, steps, (rz, rw, rh) if rz >= 0 else None),
-                         {'nodes': nodes, 'edges': edges, 'drag': drag, 'steps': steps, 'dx': dx, 'dy': dy, 'resize': [rz, rw, rh], 'one_instance': reuse, 'second_drag': [drag2, steps2, d2], 'what': what})
+                         {'nodes': nodes, 'edges': edges, 'drag': drag, 'steps': steps, 'dx': dx, 'dy': dy, 'resize': [rz, rw, rh], 'one_instance': reuse, 'second_drag': [drag2, steps2, d2], 'initial_bends': bends, 'what': what})
     ev.cov['evaluations'] = sum(len(x['states']) for x in data['recs'])
     ev.cov['distinct_nontrivial'] = nontriv
     ev.cov['traces_validated_against_impl'] = len(data['recs'])
